@@ -28,6 +28,11 @@ pub enum Call {
     MergePending,
     ProcessWelcome(String, UnsignedEvent),
     AcceptWelcome(UnsignedEvent),
+    /// create_group(name, key-package events of the invitees); the creator is the only admin
+    CreateGroup(String, Vec<Event>),
+    /// merge_pending_commit / create_message on the group a CreateGroup call of this history made (its id is random)
+    MergeCreated,
+    MessageCreated(String),
 }
 
 impl Call {
@@ -40,9 +45,14 @@ impl Call {
             Call::MergePending => "merge_pending_commit".into(),
             Call::ProcessWelcome(..) => "process_welcome".into(),
             Call::AcceptWelcome(_) => "accept_welcome".into(),
+            Call::CreateGroup(..) => "create_group".into(),
+            Call::MergeCreated => "merge_pending_commit".into(),
+            Call::MessageCreated(_) => "create_message".into(),
         }
     }
 }
+
+pub const CREATED_NAME: &str = "created-under-crash";
 
 #[derive(Debug, Clone, Serialize, Deserialize)]
 pub struct History {
@@ -87,6 +97,30 @@ fn do_call(m: &MDK<MdkSqliteStorage>, gid: &GroupId, keys: &Keys, c: &Call) -> S
             Ok(_) => "Ok".into(),
             Err(e) => format!("Err({})", err_variant(&e)),
         },
+        Call::CreateGroup(name, kps) => {
+            let cfg = NostrGroupConfigData::new(name.clone(), "made under crash enumeration".into(), None, None, None, vec![nostr::RelayUrl::parse("wss://r0.example").unwrap()], vec![keys.public_key()]);
+            match m.create_group(&keys.public_key(), kps.clone(), cfg) {
+                Ok(_) => "Ok".into(),
+                Err(e) => format!("Err({})", err_variant(&e)),
+            }
+        }
+        Call::MergeCreated | Call::MessageCreated(_) => {
+            // the newest group with the history's name that is usable
+            let mut gs: Vec<_> = m.get_groups().unwrap_or_default().into_iter().filter(|g| g.name == CREATED_NAME).collect();
+            gs.sort_by_key(|g| g.epoch);
+            let Some(g) = gs.into_iter().find(|g| m.load_mls_group(&g.mls_group_id).ok().flatten().is_some()) else { return "NoGroup".into() };
+            match c {
+                Call::MergeCreated => match m.merge_pending_commit(&g.mls_group_id) {
+                    Ok(_) => "Ok".into(),
+                    Err(e) => format!("Err({})", err_variant(&e)),
+                },
+                Call::MessageCreated(content) => match m.create_message(&g.mls_group_id, rumor(keys, content, 1_700_000_000)) {
+                    Ok(_) => "Ok".into(),
+                    Err(e) => format!("Err({})", err_variant(&e)),
+                },
+                _ => unreachable!(),
+            }
+        }
         Call::AcceptWelcome(r) => {
             let w = r.id.and_then(|id| m.get_welcome(&id).ok().flatten());
             match w {
@@ -266,6 +300,9 @@ pub fn enumerate(rep: &mut Report, prop: &str, hist_name: &str, db0: &Path, gid:
                     let mut th: BTreeMap<String, u64> = BTreeMap::new();
                     for line in sqlite_dump(&st) {
                         let t = line.split('|').next().unwrap_or("").to_string();
+                        // a snapshot row's data embeds wall-clock fields of the rows it copies, which differ between the
+                        // child processes being compared: which snapshot rows exist is what atomicity is about
+                        let line = if t == "group_state_snapshots" { line.split("|row_data=").next().unwrap_or("").to_string() } else { line };
                         let e = th.entry(t).or_insert(0);
                         *e = e.wrapping_add(h64(&line));
                     }
@@ -583,6 +620,126 @@ pub fn check_c12(rep: &mut Report, thorough: bool) {
             enumerate(rep, "C12", "joiner", &df.path, &w.gid, &d0.keys, None, calls, None, thorough);
         }
     }
+    creator_history(rep, thorough);
     rep.states += 1;
     rep.sample(json!({"history": "rollback", "call": "process_message(commit-with-rollback)", "crash_at": "restore:delete:group_relays", "then": "reopen, load every group, re-offer the commit and everything after it, compare with the uninterrupted run"}));
+}
+
+/// create_group is a creating call: the group id is random, so the comparison with an uninterrupted run is
+/// structural: after a crash at any tick the database opens, every listed group loads and its record matches
+/// its MLS state, and issuing create_group again followed by merge_pending_commit and create_message works.
+pub fn creator_history(rep: &mut Report, thorough: bool) {
+    let cfg = Cfg::default();
+    let k = Client::new("K", Bk::Sqlite, &cfg);
+    let y = Client::new("Y", Bk::Memory, &cfg);
+    let v = Client::new("V", Bk::Memory, &cfg);
+    let Mdk::Sql(_, kf) = &k.mdk else { return };
+    let exe = std::env::current_exe().expect("exe");
+    let dir = scratch_root().join("crash-creator");
+    let _ = std::fs::create_dir_all(&dir);
+    let calls: Vec<(String, Call)> = vec![("create".into(), Call::CreateGroup(CREATED_NAME.into(), vec![y.key_package_event(), v.key_package_event()])), ("created".into(), Call::MergeCreated), ("created".into(), Call::MessageCreated("first".into()))];
+    let gid = GroupId::from_slice(&[0u8; 4]);
+    let mk_hist = |db: &Path| History { db: db.to_string_lossy().to_string(), gid: hx(gid.as_slice()), secret_key: k.keys.secret_key().to_secret_hex(), db_key: None, calls: calls.clone() };
+    let mut jobs: Vec<(usize, u64, String)> = Vec::new();
+    for idx in 0..calls.len() {
+        let db = dir.join(format!("dry-{idx}.db"));
+        std::fs::copy(&kf.path, &db).expect("copy");
+        let hp = dir.join("h.json");
+        std::fs::write(&hp, serde_json::to_string(&mk_hist(&db)).unwrap()).unwrap();
+        let out = Command::new(&exe).args(["crash-child", hp.to_str().unwrap(), &idx.to_string(), "none"]).output().expect("child");
+        let so = String::from_utf8_lossy(&out.stdout).to_string();
+        let Some(line) = so.lines().find(|l| l.starts_with("TICKS ")) else {
+            rep.machinery_errors.push(format!("crashx creator dry run {idx} failed: {}", String::from_utf8_lossy(&out.stderr).chars().take(300).collect::<String>()));
+            return;
+        };
+        let parts: Vec<&str> = line.split(' ').collect();
+        if parts.get(2) != Some(&"Ok") {
+            rep.machinery_errors.push(format!("crashx creator: uninterrupted call {idx} returned {:?}", parts.get(2)));
+            return;
+        }
+        let n: u64 = parts[1].parse().unwrap_or(0);
+        let labels: Vec<&str> = parts.get(3).map(|s| s.split(',').collect()).unwrap_or_default();
+        rep.add_count(&format!("ticks_creator_{idx}_{}", calls[idx].1.label()), n);
+        for kk in 0..n {
+            jobs.push((idx, kk, labels.get(kk as usize).unwrap_or(&"?").to_string()));
+        }
+    }
+    let _ = thorough;
+    let next = std::sync::atomic::AtomicUsize::new(0);
+    let findings: std::sync::Mutex<Vec<(String, String, Value)>> = std::sync::Mutex::new(Vec::new());
+    let points = std::sync::atomic::AtomicU64::new(0);
+    std::thread::scope(|sc| {
+        for t in 0..crate::e1::threads() {
+            let (jobs, calls, dir, exe, findings, points, next, kf, mk_hist, k) = (&jobs, &calls, &dir, &exe, &findings, &points, &next, kf, &mk_hist, &k);
+            sc.spawn(move || loop {
+                let i = next.fetch_add(1, std::sync::atomic::Ordering::Relaxed);
+                if i >= jobs.len() {
+                    break;
+                }
+                let (idx, kk, label) = &jobs[i];
+                let work = dir.join(format!("w{t}"));
+                let _ = std::fs::remove_dir_all(&work);
+                let _ = std::fs::create_dir_all(work.join("db"));
+                let db = work.join("db").join("c.db");
+                std::fs::copy(&kf.path, &db).expect("copy");
+                let hp = work.join("h.json");
+                std::fs::write(&hp, serde_json::to_string(&mk_hist(&db)).unwrap()).unwrap();
+                let out = Command::new(exe).args(["crash-child", hp.to_str().unwrap(), &idx.to_string(), &kk.to_string()]).output().expect("child");
+                if out.status.success() {
+                    continue;
+                }
+                points.fetch_add(1, std::sync::atomic::Ordering::Relaxed);
+                let site = format!("{}@{label}", calls[*idx].1.label());
+                let st = match open(&db, &None) {
+                    Ok(s) => s,
+                    Err(e) => {
+                        findings.lock().unwrap().push((format!("C12|creator|database-does-not-open|{site}"), format!("after a crash at {site} (tick {kk}) the database does not open: {e}"), json!({"k": kk})));
+                        continue;
+                    }
+                };
+                let m = MDK::builder(st).build();
+                let c = Client { name: "rec".into(), keys: k.keys.clone(), mdk: Mdk::Sql(m, std::sync::Arc::new(SqlStoreFile { path: db.with_extension("unused") })), reopened: true };
+                let Mdk::Sql(mm, _) = &c.mdk else { continue };
+                // every listed group loads, and its record mirrors its MLS state
+                let mut torn = Vec::new();
+                for g in c.groups() {
+                    match mm.load_mls_group(&g.mls_group_id) {
+                        Ok(Some(_)) => {
+                            if let Some(go) = c.group_obs(&g.mls_group_id) {
+                                if let Some(bad) = crate::props_e1::record_mismatch(&go) {
+                                    torn.push(format!("record-differs-from-mls:{bad}"));
+                                }
+                            }
+                        }
+                        Ok(None) => torn.push("listed-group-without-mls-state".to_string()),
+                        Err(_) => torn.push("listed-group-does-not-load".to_string()),
+                    }
+                }
+                torn.sort();
+                torn.dedup();
+                // the interrupted call and the later ones, again
+                let mut results = Vec::new();
+                for (_, call) in &calls[*idx..] {
+                    results.push(do_call(mm, &GroupId::from_slice(&[0u8; 4]), &k.keys, call));
+                }
+                let redo_ok = results.iter().all(|r| r == "Ok");
+                let usable = c.groups().iter().filter(|g| g.name == CREATED_NAME && mm.load_mls_group(&g.mls_group_id).ok().flatten().is_some()).count();
+                if !torn.is_empty() || !redo_ok || usable == 0 {
+                    findings.lock().unwrap().push((
+                        format!("C12|creator|{site}|after-reopen:{}|again:{}", if torn.is_empty() { "clean".to_string() } else { torn.join("+") }, results.join(",")),
+                        format!("after a crash at {site} (tick {kk}): reopened database {}; issuing the calls again returns {results:?}; usable created groups: {usable}", if torn.is_empty() { "is consistent".to_string() } else { format!("has {}", torn.join(", ")) }),
+                        json!({"k": kk, "site": site}),
+                    ));
+                }
+            });
+        }
+    });
+    for (sig, what, d) in findings.into_inner().unwrap() {
+        rep.finding(sig, what, d);
+    }
+    let p = points.load(std::sync::atomic::Ordering::Relaxed);
+    rep.evaluations += p;
+    rep.transitions += p;
+    rep.add_count("crash_points_creator", p);
+    let _ = std::fs::remove_dir_all(&dir);
 }
